@@ -194,6 +194,26 @@ def main(argv):
             l, a, b = min(dis, key=lambda d: len(d[0]))
             c.broken.append("correspondence Flatten::Apply model vs util/utf8_icu.cc: %d disagreement(s); smallest: case %r (%r) model=%r impl=%r" % (
                 len(dis), l, unhx(l.split()[2]).decode("utf-8"), a[:200], b[:200]))
+    # ---- the conversions UnicodeString::fromUTF8 / toUTF8String on valid text: model vs ICU
+    if drv is not None:
+        ul = ["U " + hx(u8(l)) for l in lines]
+        rc, uo, err = run_lines(impl, ul)
+        rc2, um, err2 = run_lines(drv, ul)
+        if len(uo) != len(ul) or len(um) != len(ul):
+            c.broken.append("UTF-16 conversion runs died: %s %s" % (err[-200:], err2[-200:]))
+        else:
+            c.cov["traces_validated_against_impl"] += len(ul)
+            dis = [(l, a, b) for l, a, b in zip(ul, um, uo) if a != b]
+            if dis:
+                l, a, b = min(dis, key=lambda d: len(d[0]))
+                c.broken.append("correspondence fromUTF8/toUTF8String model vs ICU: %d disagreement(s); smallest %r model=%r icu=%r" % (len(dis), l, a[:200], b[:200]))
+            for l, o in zip(lines, uo):
+                # direct oracle: Python's UTF-16 encoding and the round trip
+                b = l.encode("utf-16-be")
+                want = "OK" + "".join(" %d" % (b[i] * 256 + b[i + 1]) for i in range(0, len(b), 2)) + " | " + hx(u8(l))
+                if o != want:
+                    c.violation("utf16-conversion: fromUTF8/toUTF8String(%r) = %s, expected %s" % (l, o[:120], want[:120]), {"op": "fromUTF8", "input": l, "impl": o, "expected": want})
+                    break
     starts = {code: build_starts(P, var) for var, code in langs}
     if fout is not None:
         for (code, l), o in zip(fcases, fout):
